@@ -578,7 +578,8 @@ class RecordMap(ShiftPipeAction):
         rk = s1.record_keys()
         if set(rk) != set(s2.record_keys()):
             raise ValueError("can only compose operations with matching record_keys")
-        inp = s1.example_input()
+        # probe cells become the column names of the composite: no decoration
+        inp = s1.example_input(value_suffix="", record_key_suffix="")
         out = s2.transform(s1.transform(inp))
         rsi = inp.drop(rk, axis=1, inplace=False)
         rso = out.drop(rk, axis=1, inplace=False)
